@@ -48,6 +48,9 @@ type vfTWCase struct {
 	// ClearAt: numbers of frames whose first five bytes spell the camera daemon's "clear" message (frames are
 	// opaque to thermal-writer: they must be stored like any other)
 	ClearAt []int `json:"clear_at,omitempty"`
+	// Lead: the first frame of the connection begins with these bytes (line ends, blanks, a YAML document marker:
+	// whatever follows the header's blank line is frame data)
+	Lead string `json:"lead,omitempty"`
 	// Stale: the output directory already holds longer files under the names of the coming seconds (a clock that
 	// was set back): what is written now must not keep any of their content
 	Stale bool `json:"stale,omitempty"`
@@ -117,6 +120,9 @@ func vfGenTW(t *rapid.T) vfTWCase {
 			c.ClearAt = append(c.ClearAt, rapid.IntRange(0, c.Frames-1).Draw(t, "clearat"))
 		}
 	}
+	if rapid.IntRange(0, 3).Draw(t, "leadbytes") == 0 {
+		c.Lead = rapid.SampledFrom([]string{"\n", "\n\n", "\r\n", " ", "\t", "---\n", "\n\nclear", "a: b\n\n"}).Draw(t, "lead")
+	}
 	c.Stale = rapid.IntRange(0, 3).Draw(t, "stale") == 0
 	c.LogFrameRate = rapid.IntRange(0, 2).Draw(t, "lograte") == 0
 	return c
@@ -144,6 +150,9 @@ func vfTWFrame(c vfTWCase, i int, buf []byte) {
 		if k == i && len(buf) >= 5 {
 			copy(buf, "clear")
 		}
+	}
+	if i == 0 && c.Lead != "" {
+		copy(buf, c.Lead)
 	}
 }
 
@@ -499,7 +508,7 @@ func vfRunTW(c vfTWCase) *kit.Result {
 
 func TestVF_C18(t *testing.T) {
 	kit.Drive(t, "C18", "TestVF_C18",
-		"generated: camera header with FrameSize 8..39040 (and 65535-70000, Boson-sized 163840 and 655360), 0-1500 frames (a class of streams exceeds the writer's 32 MiB buffer) whose bytes are a function of (seed, frame number), optionally a final incomplete frame, sender chunking (1 byte .. 100 kB writes spanning frame boundaries) and pauses, GOMAXPROCS in {1,2,4,16}, 0-3 CPU-burning goroutines; the real handleConn of thermal-writer on a pipe, built with the race detector. Oracle (round-trip): after handleConn has returned and the writer goroutine has exited (seen in the goroutine dump), an independent CPTR parser (magic, version 2, 'H' section with model, brand, fps, resolution, compression 0, device name/id, timestamp; 'F' sections with exactly one FrameSize field) recovers exactly the complete frames sent, once, in order, byte for byte, with no trailing bytes; zero race reports. Non-trivial: more than 256 frames (every buffer recycled) and a logged write backlog (the writer lagged the reader by more than 10 frames); the class backlog>=200 counts the cases in which at least 200 of the 256 buffers were in flight.",
+		"generated: camera header with FrameSize 8..39040 (and 65535-70000, Boson-sized 163840 and 655360), 0-1500 frames (a class of streams exceeds the writer's 32 MiB buffer) whose bytes are a function of (seed, frame number) - a quarter of the streams with a first frame that begins with line ends, blanks or a YAML marker -, optionally a final incomplete frame, sender chunking (1 byte .. 100 kB writes spanning frame boundaries) and pauses, GOMAXPROCS in {1,2,4,16}, 0-3 CPU-burning goroutines; the real handleConn of thermal-writer on a pipe, built with the race detector. Oracle (round-trip): after handleConn has returned and the writer goroutine has exited (seen in the goroutine dump), an independent CPTR parser (magic, version 2, 'H' section with model, brand, fps, resolution, compression 0, device name/id, timestamp; 'F' sections with exactly one FrameSize field) recovers exactly the complete frames sent, once, in order, byte for byte, with no trailing bytes; zero race reports. Non-trivial: more than 256 frames (every buffer recycled) and a logged write backlog (the writer lagged the reader by more than 10 frames); the class backlog>=200 counts the cases in which at least 200 of the 256 buffers were in flight.",
 		vfGenTW, vfRunTW)
 }
 
